@@ -49,8 +49,8 @@ META = dict(
     ],
     need=["cmp_M=LR", "cmp_R=Lh", "cmp_M=Fisher", "cmp_LLh=Fisher", "cmp_L=dTh", "cmp_E[dTdT]=M",
           "cmp_energy", "cmp_amend", "cmp_sum", "cmp_freeze", "categorical_batched"],
-    quick=dict(cases=160, workers=8, budget_s=60),
-    thorough=dict(cases=2400, workers=16, budget_s=780),
+    quick=dict(cases=96, workers=8, budget_s=60),
+    thorough=dict(cases=1600, workers=16, budget_s=780),
     design_ref="DESIGN.md §5 C12",
     level_text=("every identity is decided on complete dense matrices of the live objects at generated "
                 "points; exploration of families x containers x noise models x compositions on small "
@@ -590,7 +590,7 @@ def check_base(ck, S, rng, b, p, mats, full=True):
             f"transformation of {cls} does not pull the Euclidean metric back to metric", **wit)
     elif b.trafo == "local":
         pts = b.sigma(p) if full else []
-        if 0 < len(pts) <= (24 if S.get("thorough") else 12):
+        if 0 < len(pts) <= (24 if S.get("thorough") else 16):
             acc = 0.0
             for dat in pts:
                 J = H.jac_real(b.make(dat).transformation, p)
